@@ -273,7 +273,8 @@ class Executor:
             return self.fresh_of_type(t, st, "unk")
         if isinstance(t, Opaque) and t.nm == "Expr" and isinstance(v, Val) and v.t == Int:
             return Val(t, z3.Function("expr_of_int", z3.IntSort(), t.sort())(v.z))
-        if isinstance(v, Val) and isinstance(v.t, Opaque) and v.t.nm == "Any" and v.t != t:
+        if isinstance(v, Val) and isinstance(v.t, Opaque) and v.t.nm == "Any" and v.t != t \
+                and not (isinstance(t, Opt) and t.elt == v.t):
             out = self.fresh_of_type(t, st, "from_any")        # an untracked JSON value used at a concrete type
             if t.mutable:
                 for other in st.env.values():
@@ -282,6 +283,11 @@ class Executor:
                 self.assume_log("JSON values are trees: a container taken out of a dictionary is a different object "
                                 "from every container the function holds")
             return out
+        if isinstance(t, Opaque) and t.nm == "Any" and isinstance(v, Val) and isinstance(v.t, Opt) and v.t.elt == t:
+            # Optional[Any] used as a value: the wrapped value itself (non-None is an obligation)
+            self.oblige(self.oid("notnone"), st, z3.Not(v.t.is_none(v.z)), "Optional used as value")
+            st.assume(z3.Not(v.t.is_none(v.z)))
+            return Val(t, v.t.val(v.z))
         if isinstance(t, Opaque) and t.nm in ("Float", "StrT", "Any") and not (isinstance(v, Val) and v.t == t):
             return self.fresh_of_type(t, st, "untracked")       # floats and strings are not tracked
         if isinstance(v, Val):
@@ -313,6 +319,15 @@ class Executor:
                 return self.seq_of_items(items, t)
             if isinstance(t, Seq) and isinstance(v.t, Seq) and isinstance(v.t.elt, Opt) and v.t.elt.elt == t.elt:
                 return self.unopt_seq(v, st)
+            if isinstance(t, Seq) and isinstance(v.t, Seq) and isinstance(t.elt, Opt) and t.elt.elt == v.t.elt:
+                # Seq(T) used where Seq(Optional[T]) is expected: the same sequence with every entry wrapped (a function of it)
+                ot = t.elt
+                f = z3.Function(f"optlift_{v.t.elt.name()}", v.z.sort(), z3.SeqSort(ot.sort()))
+                r = f(v.z)
+                i = fresh("i", z3.IntSort())
+                st.assume(z3.Length(r) == z3.Length(v.z))
+                st.assume(z3.ForAll([i], z3.Implies(z3.And(0 <= i, i < z3.Length(v.z)), r[i] == ot.some(v.z[i]))))
+                return Val(t, r)
             if isinstance(t, List) and isinstance(v.t, List) and t.elt == v.t.elt:
                 return v
             if isinstance(t, Obj) and isinstance(v.t, Obj) and t.cls in self.reg.mro(v.t.cls):
